@@ -548,6 +548,7 @@ namespace
         uint64_t digest;
         uint64_t sdigest;
         std::string text;
+        std::string lex;      // (shifted terms only, short lexemes)
     };
 
     std::string pos_str(int line, int col) { return "[" + std::to_string(line) + ":" + std::to_string(col) + "]"; }
@@ -742,6 +743,7 @@ RefResult run(const Model& m, const char* bytes, int64_t n, const RunOptions& op
             const bool valueless = cur.term >= 0 && size_t(cur.term) < g.terms.size() && g.terms[size_t(cur.term)].valueless;
             v.digest = sim::leaf_digest(valueless ? std::string() : lex, uint32_t(cur.line), uint32_t(cur.col));
             v.sdigest = sim::leaf_digest(valueless ? std::string() : lex, 0, 0);
+            if (lex.size() < 4096) v.lex = lex;
             res.shifted.push_back(cur);
             if (lex.size() < 4096) v.text = "'" + (valueless ? std::string() : lex) + "'@" + std::to_string(cur.line) + ":" + std::to_string(cur.col);
             values.push_back(std::move(v));
@@ -770,6 +772,14 @@ RefResult run(const Model& m, const char* bytes, int64_t n, const RunOptions& op
             {
                 if (r.eidx < 1 || size_t(r.eidx) > k) { res.step_limit = true; break; }
                 v = values[values.size() - k + size_t(r.eidx) - 1];
+            }
+            else if (r.ftor == F_TOKREF)
+            {
+                if (k != 1) { res.step_limit = true; break; }
+                const Val& tk = values[values.size() - 1];
+                v.digest = v.sdigest = sim::tokref_digest(tk.lex);
+                v.text = "(ref '" + tk.lex + "')";
+                res.reds.push_back(RefResult::Red{ act.arg, v.digest, v.sdigest, 0 });
             }
             else if (r.ftor == F_CREATE_LIST)
             {
